@@ -4,6 +4,7 @@
 -/
 import RbModel.Lemmas.Morx
 import RbModel.Lemmas.MorxPurge
+import RbModel.Lemmas.MorxOffRange
 
 namespace RbModel.Morx
 open RbModel.Spec.Aat
@@ -250,6 +251,63 @@ example : ∃ (rf : Array Range) (b : Buf), Tiles rf 0xFFFFFFFF ∧ 1 < rf.size 
       match i, hi, h with
       | 0, _, h => simp at h; subst h; decide
       | 1, _, h => simp at h; subst h; decide⟩
+
+/-! ## a subtable switched off on a stretch of the text (ranged user features) -/
+
+/-- **C17_drive_restarts_after_off_range** (every state-table subtable type: any machine `m`, any driver context `c` —
+    rearrangement, contextual, ligature, insertion). The loop of `drive` stands at a glyph, in any state `st`, and the
+    next `k + 1` glyphs lie in ranges that switch the subtable off (`skipOff`: each iteration's range block says
+    "off", the glyph is copied through with `next_glyph`; `b'` is the buffer behind the stretch). Then the rest of the
+    run *is* the run that starts behind the stretch in START_OF_TEXT: the stretch is kept as it is and the state the
+    machine was in before it is forgotten — so (second statement) the result does not depend on that state at all.
+    Driving over prefix ++ switched-off middle ++ suffix is driving over the prefix, keeping the middle, and driving
+    over the suffix from START_OF_TEXT. What is *not* reset are the registers of the driver context `cs` (mark, marked
+    range, component stack): the code, like HarfBuzz, resets the state only. -/
+theorem C17_drive_restarts_after_off_range (m : Machine) (c : Ctx) (rf : Array Range) (sf : Nat) (cs : CS)
+    (k : Nat) (b b' : Buf) (st : Nat) (lr lr' : Option Nat) (steps : Nat)
+    (h : skipOff rf sf (k + 1) b lr = some (b', lr')) :
+    driveLoopO m c rf sf b cs st lr steps = driveLoopO m c rf sf b' cs RbModel.Gen.Morx.START_OF_TEXT lr' (steps + (k + 1)) ∧
+    (∀ st', driveLoopO m c rf sf b cs st lr steps = driveLoopO m c rf sf b cs st' lr steps) ∧
+    driveLoop m c rf sf b cs st lr steps = driveLoop m c rf sf b' cs RbModel.Gen.Morx.START_OF_TEXT lr' (steps + (k + 1)) := by
+  have e := fun s => driveLoopO_off m c rf sf cs k b b' s lr lr' steps h
+  refine ⟨e st, fun st' => by rw [e st, e st'], ?_⟩
+  unfold driveLoop; rw [e st]
+
+/-- non-vacuity: `f x i` with the subtable off on the `x` — three ranges, the loop at the second glyph, one glyph skipped. -/
+example : ∃ (rf : Array Range) (b b' : Buf) (lr' : Option Nat), skipOff rf 1 1 b (some 0) = some (b', lr') ∧ b'.idx = 2 :=
+  ⟨#[⟨1, 0, 0⟩, ⟨0, 1, 1⟩, ⟨1, 2, 0xFFFFFFFF⟩],
+   { (default : Buf) with info := #[⟨1, 0⟩, ⟨2, 1⟩, ⟨3, 2⟩], len := 3, idx := 1, successful := true },
+   { (default : Buf) with info := #[⟨1, 0⟩, ⟨2, 1⟩, ⟨3, 2⟩], len := 3, idx := 2, successful := true }, some 1,
+   by decide +kernel, rfl⟩
+
+/-- **C17_drive_restarts_after_off_range_inplace** (the subtable types that work in place: rearrangement and
+    contextual, `have_output = false`). The hypothesis of the theorem above in terms of the text: the compiled
+    ranges tile the clusters (`Tiles`, what `compile` produces — `C17_flags_range_tiles`), and the `k + 1` glyphs from
+    the cursor on have clusters at which the subtable is not enabled (`enabledAt … = false`). Then the loop, from
+    whatever state and whatever range it remembers, continues exactly as the loop started in START_OF_TEXT at the
+    first glyph behind the stretch, on the *same* buffer (only the cursor has moved). -/
+theorem C17_drive_restarts_after_off_range_inplace (m : Machine) (c : Ctx) {rf : Array Range} {hi : Nat}
+    (ht : Tiles rf hi) (sf : Nat) (cs : CS) (k : Nat) (b : Buf) (st lr0 steps : Nat)
+    (ho : b.haveOutput = false) (hs : b.successful = true) (hk : b.idx + (k + 1) ≤ b.len)
+    (hsz : b.len ≤ b.info.size) (hlr : lr0 < rf.size)
+    (hoff : ∀ (j : Nat) (g : G), j < k + 1 → b.info[b.idx + j]? = some g → g.cl ≤ hi ∧ enabledAt rf sf g.cl = false) :
+    ∃ lr', lr' < rf.size ∧
+      driveLoopO m c rf sf b cs st (some lr0) steps =
+        driveLoopO m c rf sf { b with idx := b.idx + (k + 1) } cs RbModel.Gen.Morx.START_OF_TEXT (some lr') (steps + (k + 1)) := by
+  obtain ⟨lr', hlr', e⟩ := skipOff_of_disabled ht sf (k + 1) b lr0 ho hs hk hsz hlr hoff
+  exact ⟨lr', hlr', driveLoopO_off m c rf sf cs k b _ st (some lr0) (some lr') steps e⟩
+
+/-- non-vacuity of the hypotheses: ranges on / off / on, three glyphs, the cursor on the middle one. -/
+example : ∃ (rf : Array Range) (b : Buf), Tiles rf 0xFFFFFFFF ∧ b.haveOutput = false ∧ b.successful = true ∧
+    b.idx + 1 ≤ b.len ∧ b.len ≤ b.info.size ∧ 0 < rf.size ∧
+    ∀ (j : Nat) (g : G), j < 1 → b.info[b.idx + j]? = some g → g.cl ≤ 0xFFFFFFFF ∧ enabledAt rf 1 g.cl = false :=
+  ⟨#[⟨1, 0, 0⟩, ⟨0, 1, 1⟩, ⟨1, 2, 0xFFFFFFFF⟩],
+   { (default : Buf) with info := #[⟨1, 0⟩, ⟨2, 1⟩, ⟨3, 2⟩], len := 3, idx := 1, successful := true },
+   C17_flags_range_tiles 1 0 1 2 (by decide) (by decide) (by decide), rfl, rfl, by decide, by decide, by decide,
+   by intro j g hj h
+      have : j = 0 := by omega
+      subst this
+      simp at h; subst h; exact ⟨by decide, by simp [enabledAt]⟩⟩
 
 /-! ## the reverse bracket -/
 
